@@ -12,7 +12,7 @@ EXPLANATION = ('Abstract interpretation of both MsgPack writers over value/lengt
                'equals the most compact legal MessagePack format of the specification, oversize lengths throw; nil/bool/float/double codes; '
                'timestamp header and field layout. R6.2 memory and stream writers have equal tables (byte-identical output given the sink '
                'idiom map). R6.3 the seconds component of time_point/duration -> timestamp conversions rounds toward minus infinity. '
-               'R6.4 multi-byte scalars reach the sink only through NativeToBigEndian. '
+               'R6.4 multi-byte scalars reach the sink only through NativeToBigEndian. R6.6 the field counter that produces the map header takes the same serialization route as the writer for every instantiated class. '
                'Not decided: that an independent decoder recovers equal values (payload bit patterns are delegated to memcpy/BigEndian).')
 ASSUMPTIONS = ['push_back/append and put/write append the same bytes (sink idiom map)',
                'Memory::NativeToBigEndian produces network byte order (its body is checked structurally by R6.4 only)']
@@ -139,6 +139,7 @@ def run(prog, rep):
     # property - no input was found for which the library writes fewer entries than FieldsCountVisitor / GetContainerSize announced -
     # so demanding it would be more than the property states (DESIGN.md, C06).
     rep.note('informational: MsgPack write scopes only detect writing MORE than the declared count (no declared==written check at scope end)')
+    check_count_routes(prog, rep)
 
 
 def check_timestamp_cell(rep, kind, f, cell, seqs, bad):
@@ -236,3 +237,60 @@ def expected(fam, cell):
     if fam == 'timestamp':
         return None, 'timestamp'
     raise AnalysisBroken('no writer expectation for family %s' % fam)
+
+
+# ---------------------------------------------------------------------------------------- R6.6 field counter follows the writer's route
+def check_count_routes(prog, rep, rule='R6.6'):
+    """The MsgPack map header is written from FieldsCountVisitor::Count<T>() before the fields are written by Serialize(archive, T&).
+    Both pick the serialization route of T with `if constexpr` chains over the same traits; per instantiated class T the routes taken by the
+    counter (T::Serialize member / global SerializeObject, in this multiplicity) must be exactly those taken by the writer dispatch."""
+    from bsv.facts import strip_targs
+    rep.rule(rule, 'per class T: FieldsCountVisitor::Count<T> takes exactly the serialization route(s) that Serialize(archive, T&) takes '
+                   '(internal Serialize() xor global SerializeObject()), so the declared map size equals the number of entries written', floor=6)
+
+    def routes(f, tname):
+        r = {'member': 0, 'global': 0}
+        for n in f.walk():
+            if n['k'] == 'CXXMemberCallExpr':
+                c = f.callee(n) or {}
+                if c.get('n') == 'Serialize' and c.get('cls', c.get('clsq', '')) and strip_targs(c['q']).endswith('::Serialize'):
+                    r['member'] += 1
+            elif n['k'] == 'CallExpr':
+                c = f.callee(n) or {}
+                if c.get('n') == 'SerializeObject':
+                    r['global'] += 1
+        return r
+
+    def arg_type(f, idx):
+        from bsv.dtab import base_type
+        return base_type(f.type(f.params[idx])) if len(f.params) > idx and 't' in f.params[idx] else None
+
+    counters, writers = {}, {}
+    for f in prog.funcs.values():
+        if f.body is None:
+            continue
+        if f.name == 'Count' and strip_targs(f.cls or '') == 'BitSerializer::FieldsCountVisitor' and len(f.params) == 1:
+            counters.setdefault(arg_type(f, 0), f)
+        elif f.q == 'BitSerializer::Serialize' and len(f.params) == 2 and f.relfile.endswith('serialization_base_types.h') \
+                and 'SerializeMode::Save' in f.id.replace('(BitSerializer::SerializeMode)1', 'SerializeMode::Save'):
+            t = arg_type(f, 1)
+            if t and any((f.callee(n) or {}).get('n') in ('Serialize', 'SerializeObject') for n in f.walk() if n['k'] in ('CallExpr', 'CXXMemberCallExpr')):
+                writers.setdefault(t, f)
+    n = 0
+    for t in sorted(counters):
+        if t not in writers:
+            continue
+        cf, wf = counters[t], writers[t]
+        rc, rw = routes(cf, t), routes(wf, t)
+        n += 1
+        rep.touch(cf)
+        rep.touch(wf)
+        short = t.replace('BitSerializer::', '')
+        if rc == rw and rc['member'] + rc['global'] == 1:
+            rep.ok(rule, 'routes|%s' % short, sample={'class': short, 'counter': rc, 'writer': rw})
+        else:
+            rep.finding(rule, 'routes|%s' % ('class with both routes' if (rc['member'] and rc['global']) or (rw['member'] and rw['global']) else short), cf.loc(),
+                        'class %s: the field counter takes routes %s, the writer takes %s - the map header declares a different number of entries than are written'
+                        % (short, rc, rw), func=cf.id)
+    if n < 3:
+        raise AnalysisBroken('%s: fewer than 3 classes with both a counter and a writer instantiation' % rule)
